@@ -84,6 +84,24 @@ int main(int argc, char** argv) {
         emit("rep", pos, start, hist, ml.size);
         emitted++;
     }
+    bool thinMode = argc > 3 && std::string(argv[3]) == "thin";
+    while (thinMode && emitted < count) {
+        // capture-happy random games: sparse middlegames / endgames with 6..14 men, both sides keeping some material
+        Position pos = TextIO::readFEN(rnd.nextInt(3) ? fens[0] : fens[rnd.nextInt((int)fens.size())]);
+        std::vector<Move> hist;
+        for (int ply = 0; ply < 200 && emitted < count; ply++) {
+            MoveList ml;
+            legalMoves(pos, ml);
+            if (ml.size == 0 || pos.getHalfMoveClock() >= 80) break;
+            int n = pos.nPieces();
+            if (n >= 5 && n <= 14 && rnd.nextInt(6) == 0) { emit("thin", pos, TextIO::toFEN(pos), {}, ml.size); emitted++; }
+            Move m = ml[rnd.nextInt(ml.size)];
+            if (rnd.nextInt(100) < 70)
+                for (int t = 0; t < 6; t++) { const Move& c = ml[rnd.nextInt(ml.size)]; if (pos.getPiece(c.to()) != Piece::EMPTY) { m = c; break; } }
+            UndoInfo ui;
+            pos.makeMove(m, ui);
+        }
+    }
     while (emitted < count) {
         int mode = rnd.nextInt(10);
         if (mode < 7) {
